@@ -8,10 +8,11 @@ import os
 import sys
 import types
 
-sys.path.insert(0, '/repo')
+REPO = os.environ.get('VERIF_REPO', '/repo').rstrip('/')
+sys.path.insert(0, REPO)
 import bronzebeard.asm as asm    # noqa: E402
 
-assert os.path.abspath(asm.__file__).startswith('/repo/'), asm.__file__
+assert os.path.abspath(asm.__file__).startswith(REPO + '/'), asm.__file__
 
 OPS = {
     'def':        dict(src='FOO = 5\nR = x9\nL1:\naddi R, R, FOO\nj L1\n'),
